@@ -13,6 +13,7 @@ Notation cvK := (cvK rules env F rank).
 Notation task_ok2 := (task_ok2 rules env F rank).
 Notation concl := (concl rules F).
 Notation rowok := (rowok rules F).
+Notation cstruct := (cstruct rules).
 Notation BT := (BT rules env F rank).
 Notation BC := (BC rules F).
 Notation BS := (BS rules env F rank).
@@ -51,6 +52,7 @@ Proof.
     + intros i y Hu0 Hi' Hy. rewrite Hdp. destruct (K7 i y Hu0 Hi' Hy) as [(rq & H1 & H2 & H3)|H]; [left; exists rq; split; auto; apply HU1; auto; congruence|now right].
     + intros d. rewrite Hdp. intros Hin. destruct (K8 d Hin) as [H|(rq & H1 & H2 & H3)]; [left; now apply Hc1|right; exists rq; split; auto; apply O1; auto; congruence].
     + intros d. rewrite Hdp. apply K9.
+    + rewrite Hft. exact K10.
     + rewrite Hft, Hsg. exact K11.
   - exact Hroot.
 Qed.
@@ -83,13 +85,9 @@ Lemma rowok_drop s s' k : (forall x, stored s' x = stored s x) -> (forall x, cAt
 Proof.
   intros Hst Hca Hb Hd (v & Hv & Ho & Hm & Hc). exists v. split; [now rewrite Hst|]. split; [exact Ho|]. split.
   - intros d. rewrite Hd. intros Hin. apply in_drop_single in Hin. apply Hm, Hin.
-  - intros Hf. destruct Hc as [Hc1 Hc2].
-    + intros d Hin Hor Hsi. rewrite <- Hca, <- Hb. apply Hf; auto. rewrite Hd. apply in_drop_single. auto.
-    + unfold ImplInc1.concl in *. cbn zeta in *.
-      assert (Hreq : map (stored s') (r_req (rules k)) = map (stored s) (r_req (rules k))) by (apply map_ext; intros; apply Hst).
-      rewrite Hreq. set (bk := branch_keys (rules k) (map (stored s) (r_req (rules k)))) in *.
-      assert (Hbk : map (stored s') bk = map (stored s) bk) by (apply map_ext; intros; apply Hst).
-      rewrite Hbk. split; auto. intros x Hx. rewrite Hd. apply in_drop_single. split; auto.
+  - intros Hf. apply (concl_same_gen rules F s s' k v).
+    + intros x Hx. split; [rewrite Hd; apply in_drop_single; split; auto|apply Hst].
+    + apply Hc. intros d Hin Hor Hsi. rewrite <- Hca, <- Hb. apply Hf; auto. rewrite Hd. apply in_drop_single. auto.
 Qed.
 
 (* the stored results when only state kinds and build stamps change: a rule either keeps its stamp (its single-use dependencies
@@ -99,29 +97,37 @@ Lemma BC_kinds s s' : BC s -> is_epoch s' = is_epoch s ->
   (forall k, deps s' k = deps s k \/ (deps s' k = drop_single (deps s k) /\ ~ curk s' k /\ bAt s' k = bAt s k)) ->
   (forall k, res_sig (res_of s' k) = res_sig (res_of s k)) -> (forall k, ri_cancelled (rinfo_of s' k) = false) ->
   (forall k, idle s' k -> idle s k) -> (forall k, curk s k -> curk s' k) ->
+  (forall k, is_in_progress s k = true -> is_in_progress s' k = true \/ curk s' k) ->
+  (forall x, pending_dummy s x -> pending_dummy s' x \/ is_in_progress s' x = true \/ curk s' x) ->
   (forall k, (bAt s' k = bAt s k /\ (curk s' k -> curk s k)) \/
-             (bAt s' k = is_epoch s /\ kind_of s' k = KComplete /\ idle s k /\ bAt s k <> 0 /\ deps s' k = deps s k /\ (forall v, stored s k = Some v -> concl s k v) /\
-              forall d, In d (deps s k) -> curk s' (d_key d))) ->
+             (bAt s' k = is_epoch s /\ curk s' k /\ idle s k /\ bAt s k <> 0 /\ cstruct s' k)) ->
   BC s'.
 Proof.
-  intros [C1 C2 C3 C4 C5 C6 C7] He Hst Hca Hdp Hsg Hnc Hid Hc1 Hb.
+  intros [C1 C2 C3 C4 C5 C6 C7] He Hst Hca Hdp Hsg Hnc Hid Hc1 Hip Hpd Hb.
   constructor.
   - exact Hnc.
   - intros k Hi. rewrite Hca. destruct (Hb k) as [[Eb _]|(Eb & _)]; rewrite Eb; [apply C2; auto|apply C3].
   - intros k. rewrite He, Hca. destruct (Hb k) as [[Eb _]|(Eb & _)]; rewrite Eb; [apply C3|split; [lia|apply C3]].
-  - intros k. rewrite He. destruct (Hb k) as [[Eb _]|(Eb & Hk & _)]; [|auto]. rewrite Eb. intros Hbe.
+  - intros k. rewrite He. destruct (Hb k) as [[Eb _]|(Eb & Hk & _)]; [|intros _; apply Hk]. rewrite Eb. intros Hbe.
     assert (Hc : curk s k) by (split; [now apply C4|exact Hbe]). apply (Hc1 k Hc).
   - intros k. rewrite Hsg. destruct (Hb k) as [[Eb _]|(Eb & _ & _ & Hb0 & _)]; [rewrite Eb; apply C5|intros _; now apply C5].
-  - intros k Hi Hb'. destruct (Hb k) as [[Eb Hcc]|(Eb & Hk & Hi0 & Hb0 & Hd0 & Hco & Hdc)].
-    + rewrite Eb in Hb'. destruct (Hdp k) as [Hd|(Hd & _)].
-      * pose proof (res_ext s s' k (Hst k) (Hca k) Eb Hd (Hsg k)) as Hr.
-        apply (rowok_step rules F s s' k Hr); [|apply C6; auto].
-        intros d _ _ _. left. rewrite Hst, Hca. split; auto. lia.
-      * apply (rowok_drop s s' k); auto.
-    + destruct (C6 k Hi0 Hb0) as (v & Hv & Ho & Hm & _). exists v. split; [now rewrite Hst|]. split; [exact Ho|]. split; [now rewrite Hd0|].
-      intros _. apply (concl_same rules F s s' k v Hd0); auto.
-  - intros k Hc d. destruct (Hb k) as [[Eb Hcc]|(_ & _ & _ & _ & Hd0 & _ & Hdc)]; [|rewrite Hd0; now apply Hdc].
-    destruct (Hdp k) as [Hd|(_ & Hn & _)]; [|contradiction]. rewrite Hd. intros Hin. apply Hc1. apply (C7 k (Hcc Hc) d Hin).
+  - intros k Hi Hb' Hncu. destruct (Hb k) as [[Eb Hcc]|(_ & Hk & _)]; [|contradiction].
+    rewrite Eb in Hb'. assert (Hn0 : ~ curk s k) by (intros H; apply Hncu; now apply Hc1).
+    destruct (Hdp k) as [Hd|(Hd & _)].
+    + pose proof (res_ext s s' k (Hst k) (Hca k) Eb Hd (Hsg k)) as Hr.
+      apply (rowok_step rules F s s' k Hr); [|apply C6; auto].
+      intros d _ _ _. left. rewrite Hst, Hca. split; auto. lia.
+    + apply (rowok_drop s s' k); auto.
+  - intros k Hc. destruct (Hb k) as [[Eb Hcc]|(_ & _ & _ & _ & Hcs)]; [|exact Hcs].
+    destruct (Hdp k) as [Hd|(_ & Hn & _)]; [|contradiction].
+    destruct (C7 k (Hcc Hc)) as (S1 & S2 & S3). unfold cstruct in *. cbn zeta in *.
+    assert (Hreq : map (stored s') (r_req (rules k)) = map (stored s) (r_req (rules k))) by (apply map_ext; intros; apply Hst).
+    rewrite Hreq, Hd. split; [|split].
+    + intros y Hy. destruct (S1 y Hy) as [H1 H2]. split; auto.
+    + exact S2.
+    + intros d Hin. destruct (S3 d Hin) as [Hm Hs']. split; auto. destruct Hs' as [Hcd|(Hdd & [Hp|Hp])]; [left; auto| |].
+      * destruct (Hip _ Hp) as [H|H]; [right; split; auto|left; exact H].
+      * destruct (Hpd _ Hp) as [H|[H|H]]; [right; split; auto|right; split; auto|left; exact H].
 Qed.
 
 Lemma valid_stored s s' k : stored s' k = stored s k -> valid rules env k (res_of s' k) = valid rules env k (res_of s k).
@@ -162,7 +168,7 @@ Proof.
 Qed.
 
 Hypothesis Hrank : wf_rank rules rank.
-Hypothesis Hdisc : forall k, r_disc (rules k) = [].
+Hypothesis Hwfd : wf_disc rules.
 
 (* a valid row all of whose recorded inputs are complete and were not recomputed after it was built holds the clean value *)
 Lemma row_clean s k : (forall y, curk s y -> stored s y = cvK y) -> rowok s k -> valid rules env k (res_of s k) = true ->
@@ -179,11 +185,15 @@ Proof.
   { apply map_ext_in. intros y Hy. apply Hcl, Hrec. apply in_or_app. now left. }
   rewrite Hreq in Hf, Hrec. change (branch_keys (rules k) (map cvK (r_req (rules k)))) with (bkK rules env F rank k) in Hf, Hrec.
   assert (Hbk : map (stored s) (bkK rules env F rank k) = map cvK (bkK rules env F rank k)).
-  { apply map_ext_in. intros y Hy. apply Hcl, Hrec. apply in_or_app. now right. }
+  { apply map_ext_in. intros y Hy. apply Hcl, Hrec. apply in_or_app. right. apply in_or_app. now left. }
   rewrite Hbk in Hf.
+  assert (Hdc : map (fun d => snd (payload_of (stored s d))) (r_disc (rules k)) = map env (r_disc (rules k))).
+  { apply map_ext_in. intros y Hy. rewrite (Hcl y); [|apply Hrec; apply in_or_app; right; apply in_or_app; now right].
+    unfold ImplVal1.cvK. rewrite (cvk_unfold rules env F rank Hrank y). cbn [payload_of snd]. unfold obs. now rewrite (Hwfd k y Hy). }
+  rewrite Hdc in Hf.
   assert (Hsnd : snd v = obs rules env k).
   { unfold obs. unfold valid in Hval. unfold stored in Hv. rewrite Hv in Hval. destruct (r_obs (rules k)); [now apply N.eqb_eq in Hval|now apply Ho]. }
-  unfold ImplVal1.cvK at 1. rewrite (cvk_unfold rules env F rank Hrank k). cbn zeta. rewrite Hdisc. cbn [map]. f_equal.
+  unfold ImplVal1.cvK at 1. rewrite (cvk_unfold rules env F rank Hrank k). cbn zeta. f_equal.
   rewrite <- Hsnd. rewrite (surjective_pairing v) at 1. f_equal. rewrite Hf. f_equal. rewrite map_app, !map_map. reflexivity.
 Qed.
 
@@ -313,6 +323,8 @@ Proof.
     + intros k'. rewrite (proj2 (proj2 (HL k'))). apply (b_nc _ _ _ HC).
     + intros k'. unfold idle. rewrite HK. destruct (N.eqb k' k) eqn:E; auto. apply N.eqb_eq in E. now subst.
     + intros k' H. now apply Hcu.
+    + intros k' H. left. now rewrite Hip.
+    + intros y (rq & Hu' & H1' & H2'). left. exists rq. split; [now apply HU|auto].
     + intros k'. left. split; auto. intros H. now apply Hcu.
   - apply (BS_kinds None x' su su1 HS); auto.
     + intros k' H. now apply Hcu.
